@@ -143,6 +143,39 @@ class Recorder:
         return f
 
     # ---------------------------------------------------------------- one step
+    def eq_near(self, h):
+        """a copy of h with ONE numeric field moved by one ulp, compared with h at tolerance 1e-12, 0, 1e-12"""
+        import histogrammar.util as U
+
+        c = h.copy()
+
+        def nudge(node, depth=0):
+            field = {"Sum": "sum", "Average": "mean", "Minimize": "min", "Maximize": "max"}.get(getattr(node, "name", ""))
+            for attr in ([field] if field else []):
+                v = node.__dict__.get(attr)
+                if isinstance(v, float) and math.isfinite(v) and v != 0.0 and getattr(node, "entries", 0.0) > 0.0:
+                    setattr(node, attr, math.nextafter(v, math.inf))
+                    return True
+            if depth < 8:
+                for ch in list(node.children):
+                    if ch is not None and ch is not node.__dict__.get("value") and nudge(ch, depth + 1):
+                        return True
+            return False
+
+        res = {"nudged": bool(nudge(c)), "t1": True, "z": False, "zne": True, "t2": True}
+        if res["nudged"]:
+            try:
+                U.relativeTolerance = U.absoluteTolerance = 1e-12
+                res["t1"] = bool(c == h) and bool(h == c)
+                U.relativeTolerance = U.absoluteTolerance = 0.0
+                res["z"] = bool(c == h) or bool(h == c)
+                res["zne"] = bool(c != h)
+                U.relativeTolerance = U.absoluteTolerance = 1e-12
+                res["t2"] = bool(c == h) and bool(h == c)
+            finally:
+                U.relativeTolerance = U.absoluteTolerance = 0.0
+        return res
+
     def accessors(self, h, op):
         """the scalar look-up methods of the read-only API, answered by the library (spec: HgViews!AccExpect)"""
         from .project import num as _num
@@ -336,6 +369,8 @@ class Recorder:
                 finally:
                     U.relativeTolerance = U.absoluteTolerance = 0.0
                 extra["res"] = res
+            elif kind == "EqNear":
+                extra["res"] = self.eq_near(O[op["a"]])
             elif kind == "Read":
                 h = O[op["a"]]
                 which = op["which"]
@@ -477,6 +512,8 @@ class Recorder:
             extra.setdefault("fix", False)
         if kind == "Doc" and "doc" not in extra:
             extra["doc"] = {"j": "str", "v": "-"}
+        if kind == "EqNear" and "res" not in extra:
+            extra["res"] = {"nudged": True, "t1": False, "z": True, "zne": False, "t2": False}
         if kind == "Eq" and "res" not in extra:
             extra["res"] = {"ab": False, "ba": False, "ne": True, "tab": False, "tba": False}
         ch, dropped = self.observe()
